@@ -290,6 +290,8 @@ def run(ctx):
            'missing: %s' % [l for l in rfc.LABELS if l not in labels_seen], '', None)
     from rules import profile
     profile.check(ctx, rep, 'R09.P', ['creg_start', 'creg_finish', 'sreg_start', 'clog_start', 'clog_finish', 'slog_start'])
+    from rules import lclone
+    lclone.check(ctx, rep, 'R09.C')
     return rep
 
 
